@@ -30,7 +30,7 @@ var htmlTags = []string{"div", "p", "span", "b", "i", "a", "em", "table", "tr", 
 	"select", "option", "optgroup", "template", "script", "style", "textarea", "title", "br", "img", "hr", "input", "meta", "link", "svg", "math", "g", "circle", "foreignObject", "mi", "mo", "annotation-xml",
 	"h1", "h2", "form", "button", "nobr", "font", "body", "head", "html", "frameset", "noscript", "pre", "plaintext-not", "x-custom", "svg:rect", "main", "section", "center", "applet", "marquee", "object"}
 
-var htmlAttrs = []string{"id", "class", "href", "xmlns", "xmlns:x", "xmlns:xlink", "xlink:href", "x:a", "y:a", "id", "DATA-X", "data-é", "style", "viewBox", "definitionurl", "a:b"}
+var htmlAttrs = []string{"id", "class", "href", "xmlns", "xmlns:x", "xmlns:xlink", "xlink:href", "x:a", "y:a", "id", "DATA-X", "data-é", "style", "viewBox", "definitionurl", "a:b", "xmlnsfoo", "xmlns-x", "xmlns_", "xmlnsx:y"}
 
 func genSoup(g *rng.R, sb *strings.Builder, depth, maxDepth int, budget *int) {
 	n := g.Range(0, 4)
